@@ -371,6 +371,41 @@ def _run_errors(desc):
                 continue
             if bool(got_in) != want_in:
                 claims.append(Fail(f'contains:{tag}', f'{item!r} in x is {got_in}, expected {want_in}', fkey=f'errors|containment|{tag}'))
+    if d >= 2 and not alg.graded:
+        # value types whose exact read-back a float detour would destroy: complex and big-integer arrays, python complex, Fraction
+        import numpy as _np
+        from fractions import Fraction as _Fr
+        ks = [k12, 1, 0]
+        for vt, mk in (('complex-array', lambda i: _np.array([1 + 2j * (i + 1), 3 - 1j])), ('bigint-array', lambda i: _np.array([2 ** 60 + i + 1, -(2 ** 59) - i], dtype=_np.int64)),
+                       ('complex', lambda i: complex(i + 1, -2)), ('bigint', lambda i: 2 ** 70 + i), ('fraction', lambda i: _Fr(i + 1, 3)), ('float32-array', lambda i: _np.array([0.1 * (i + 1), 7.0], dtype=_np.float32))):
+            for container in ('list', 'ndarray'):
+                vals = [mk(i) for i in range(len(ks))]
+                if container == 'ndarray':
+                    if not hasattr(vals[0], 'shape'):
+                        continue
+                    vals = _np.array(vals)
+                try:
+                    xv = alg.multivector(keys=tuple(ks), values=vals)
+                except Exception:
+                    continue
+
+                def same(a, b):
+                    a, b = _np.asarray(a), _np.asarray(b)
+                    return a.shape == b.shape and bool((a == b).all())
+                for form, y in (('asfullmv', lambda: xv.asfullmv()), ('asfullmv-binary', lambda: xv.asfullmv(canonical=False)), ('grade', lambda: xv.grade(0, 1, 2)),
+                                ('map-identity', lambda: xv.map(lambda v: v)), ('filter-all', lambda: xv.filter(lambda v: True))):
+                    try:
+                        r = y()
+                    except Exception as e:  # noqa
+                        claims.append(Fail(f'value-type:{vt}:{container}:{form}:raises', f'{form} of a multivector with {vt} coefficients ({container}) raises {type(e).__name__}: {e}',
+                                           fkey=f'errors|value-types|{form}|raises'))
+                        continue
+                    for j, k in enumerate(ks):
+                        got = getattr(r, alg.bin2canon[k])
+                        if not same(got, (vals[j] if container == 'list' else vals[j])):
+                            claims.append(Fail(f'value-type:{vt}:{container}:{form}[{k}]', f'{form} of a multivector with {vt} coefficients ({container}): blade {k} reads {got!r}, supplied {vals[j]!r}',
+                                               fkey=f'errors|value-types|{form}'))
+                            break
     if alg.graded and d >= 2:
         # complete grades given in another order than the canonical one: refused, or every value on the blade it was given for
         g1 = [k for k in alg.bin2canon if bin(k).count('1') == 1]
